@@ -585,12 +585,18 @@ func (interp *Interpreter) cfg(root *node, sc *scope, importPath, pkgName string
 		case ifStmt0, ifStmt1, ifStmt2, ifStmt3:
 			sc = sc.pushBloc()
 
-		case switchStmt, switchIfStmt, typeSwitch:
+		case switchStmt, typeSwitch:
 			// Make sure default clause is in last position.
 			c := n.lastChild().child
 			if i, l := getDefault(n), len(c)-1; i >= 0 && i != l {
 				c[i], c[l] = c[l], c[i]
 			}
+			sc = sc.pushBloc()
+			sc.loop = n
+
+		case switchIfStmt:
+			// The clauses stay in source order: conditions are tested in that order
+			// and fallthrough goes to the textually next clause.
 			sc = sc.pushBloc()
 			sc.loop = n
 
@@ -2149,6 +2155,11 @@ func (interp *Interpreter) cfg(root *node, sc *scope, importPath, pkgName string
 				// Switch is empty
 				break
 			}
+			// The default clause, wherever it is, is taken when no condition holds.
+			nextTest := n
+			if i := getDefault(n); i >= 0 && len(clauses[i].child) > 0 {
+				nextTest = clauses[i].lastChild().start
+			}
 			// Wire case clauses in reverse order so the next start node is already resolved when used.
 			for i := l - 1; i >= 0; i-- {
 				c := clauses[i]
@@ -2161,12 +2172,10 @@ func (interp *Interpreter) cfg(root *node, sc *scope, importPath, pkgName string
 					if len(c.child) > 1 {
 						cond := c.child[0]
 						cond.tnext = body.start
-						if i == l-1 {
-							setFNext(cond, n)
-						} else {
-							setFNext(cond, clauses[i+1].start)
-						}
+						// A failed condition goes to the next condition in source order.
+						setFNext(cond, nextTest)
 						c.start = cond.start
+						nextTest = c.start
 					} else {
 						c.start = body.start
 					}
@@ -2182,7 +2191,7 @@ func (interp *Interpreter) cfg(root *node, sc *scope, importPath, pkgName string
 					}
 				}
 			}
-			sbn.start = clauses[0].start
+			sbn.start = nextTest
 			n.start = n.child[0].start
 			n.child[0].tnext = sbn.start
 
